@@ -896,11 +896,15 @@ func runParseOn(s *gobinlog.Streamer, m *tblMapper, packets [][]byte, file strin
 	ctx, cancel := context.WithCancel(context.Background())
 	defer cancel()
 	done := make(chan struct{})
+	sent := make([][]byte, len(packets)) // the buffers the events are made of (kept to see whether the parser writes to them)
+	for i, p := range packets {
+		sent[i] = exact(p)
+	}
 	go func() {
 		defer close(done)
-		for _, p := range packets {
+		for i := range packets {
 			select {
-			case ch <- replication.NewMysql56BinlogEvent(exact(p)):
+			case ch <- replication.NewMysql56BinlogEvent(sent[i]):
 			case <-ctx.Done():
 				return
 			}
@@ -936,6 +940,14 @@ func runParseOn(s *gobinlog.Streamer, m *tblMapper, packets [][]byte, file strin
 	<-done
 	if cls == "panic" {
 		cls = "crash@?"
+	}
+	// the events are the reader's buffers: the parser must leave them as received (a decoder that works in place on a
+	// row image changes what a second decode of the same event gives)
+	for i, p := range packets {
+		if hx(sent[i]) != hx(p) && len(calls) > 0 {
+			calls[len(calls)-1] += fmt.Sprintf("!event-%d-bytes-changed-by-the-parser", i)
+			break
+		}
 	}
 	// a transaction handed to the handler must read the same after the parse went on (no change moved into or out
 	// of it afterwards)
